@@ -64,7 +64,7 @@ fn check(v: &AV, acc: &mut Acc) {
                 v1::Addresses::Tcp4(x) if v4_ok(&x, src, dst, sp, dp) => {}
                 other => bad(acc, "v1::Addresses::new_tcp4", format!("{:?}", other)),
             }
-            let good = v1::IPv4 { source_address: src.into(), source_port: sp, destination_address: dst.into(), destination_port: dp };
+            let good = super::values::make_v4(src, dst, sp, dp);
             match v1::Addresses::from(good) {
                 v1::Addresses::Tcp4(x) if v4_ok(&x, src, dst, sp, dp) => {}
                 other => bad(acc, "v1::Addresses::from(IPv4)", format!("{:?}", other)),
@@ -119,7 +119,7 @@ fn check(v: &AV, acc: &mut Acc) {
                 v1::Addresses::Tcp6(x) if v6_ok(&x, src, dst, sp, dp) => {}
                 other => bad(acc, "v1::Addresses::new_tcp6", format!("{:?}", other)),
             }
-            let good = v1::IPv6 { source_address: src.into(), source_port: sp, destination_address: dst.into(), destination_port: dp };
+            let good = super::values::make_v6(src, dst, sp, dp);
             match v1::Addresses::from(good) {
                 v1::Addresses::Tcp6(x) if v6_ok(&x, src, dst, sp, dp) => {}
                 other => bad(acc, "v1::Addresses::from(IPv6)", format!("{:?}", other)),
@@ -157,7 +157,7 @@ fn check(v: &AV, acc: &mut Acc) {
             if u.source != *src || u.destination != *dst {
                 bad(acc, "Unix::new", format!("source {} destination {}", hex(&u.source[..8]), hex(&u.destination[..8])));
             }
-            match v2::Addresses::from(v2::Unix { source: *src, destination: *dst }) {
+            match v2::Addresses::from(super::values::make_unix(*src, *dst)) {
                 v2::Addresses::Unix(x) if x.source == *src && x.destination == *dst => {}
                 other => bad(acc, "v2::Addresses::from(Unix)", format!("{:?}", other.address_family())),
             }
